@@ -126,7 +126,9 @@ class DataSet(BaseObject):
             writer.removePath("%s/%s" % ("data", fileName), force=True)
         self._scheduledForDeletion.clear()
         for fileName, data in self._data.items():
-            if not data["dirty"]:
+            # in a save as, loaded data that has not been modified
+            # must be written as well: it is not copied above.
+            if not data["dirty"] and not (saveAs and data["data"] is not None):
                 continue
             writer.writeBytesToPath("%s/%s" % ("data", fileName), data["data"])
             data["dirty"] = False
